@@ -47,6 +47,7 @@ def run(args):
     from . import runner
     res = Result()
     buf = io.StringIO()
+    mpl.close("all")   # every command starts without figures, as a fresh process would
     try:
         with contextlib.redirect_stdout(buf):
             verif.driver.run(["verif"] + [str(a) for a in args])
